@@ -350,7 +350,12 @@ def fmt_op(op) -> str:
     if k == "chain":
         return f"{'rchain' if len(op) > 2 and op[2] else 'chain'}({fmt_prog(op[1])})"
     if k == "join":
-        on = f" on {{{','.join(op[4])}}}" if len(op) > 4 and op[4] is not None else ""
+        on = ""
+        if len(op) > 4 and op[4] is not None:
+            if op[4][:1] == ("mm",):
+                on = f" min {{{','.join(op[4][1])}}} max {'any' if op[4][2] is None else '{' + ','.join(op[4][2]) + '}'}"
+            else:
+                on = f" on {{{','.join(op[4])}}}"
         on += " via Join.apply" if len(op) > 5 else ""
         return f"{'rjoin' if op[3] else 'join'}({fmt_prog(op[1])}{', ' + fmt(op[2]) if op[2] else ''}{on})"
     if k == "mat":
